@@ -149,6 +149,8 @@ type c10Patch struct {
 
 type c10Scn struct {
 	Kind string `json:"kind"`
+	// OOD is set by the harness when the real run leaves the model's domain
+	OOD string `json:"ood,omitempty"`
 	// patch
 	XR    any       `json:"xr,omitempty"`
 	CD    any       `json:"cd,omitempty"`
@@ -639,6 +641,14 @@ func c10FillChainOracles(xfs []c10Xf, input any, mons *[]Mon) (any, bool) {
 			return nil, false
 		}
 		c10ClampMonitor(xfs[i], cur, out, mons)
+		// a typed nil map / slice (json.Unmarshal of the text "null" into a map or slice) has no
+		// counterpart among the model's values: the scenario is outside the model's domain
+		if m, ok := out.(map[string]any); ok && m == nil {
+			c10OOD = "typed-nil-map"
+		}
+		if l, ok := out.([]any); ok && l == nil {
+			c10OOD = "typed-nil-slice"
+		}
 		cur = out
 	}
 	return cur, true
@@ -750,7 +760,9 @@ func c10RunPatch(s *c10Scn) (map[string]any, []Mon, string) {
 	if strings.HasPrefix(ec2, "panic:") {
 		ec2 = "panic"
 	}
-	wildErr := ec != "" && s.Patch.To != nil && strings.Contains(s.Patch.To.Raw, "[*]")
+	// after an error of a wildcard patch or of a patch with merge options the destination is left
+	// in a state that depends on Go map order (see below): only the error is compared then
+	wildErr := ec != "" && c10Unstable(s.Patch)
 	if ec2 != ec || (!wildErr && (!reflect.DeepEqual(xrA, xrB) || !reflect.DeepEqual(cdA, cdB))) {
 		mons = append(mons, Mon{Sig: "C10:nondeterministic", Why: "two runs of the same patch on equal objects differ"})
 	}
@@ -1011,7 +1023,21 @@ func c10DecodeScn(raw []byte) (*c10Scn, error) {
 	return &s, nil
 }
 
+// c10OOD is set while a scenario runs when it leaves the model's stated domain (the model then
+// skips it; the monitors on the real run still count).
+var c10OOD string
+
 func c10Run(s *c10Scn) (any, []Mon, string) {
+	c10OOD = ""
+	obs, mons, cls := c10RunKind(s)
+	s.OOD = c10OOD
+	if c10OOD != "" {
+		cls = "ood/" + c10OOD + "/" + cls
+	}
+	return obs, mons, cls
+}
+
+func c10RunKind(s *c10Scn) (any, []Mon, string) {
 	switch s.Kind {
 	case "patch":
 		if s.Patch == nil {
